@@ -18,6 +18,7 @@
 #include "libfive/tree/tree.hpp"
 #include "libfive/tree/data.hpp"
 #include "libfive/tree/opcode.hpp"
+#include "libfive/tree/archive.hpp"
 #include "libfive/eval/deck.hpp"
 #include "libfive/eval/tape.hpp"
 #include "libfive/eval/eval_array.hpp"
@@ -286,6 +287,85 @@ int main(int argc, char** argv) {
                 float v1 = ar.value(p, *r.second);
                 bool ok = anynan || (memcmp(&v0, &v1, 4) == 0 && memcmp(&v0, &r.first, 4) == 0);
                 out(std::string("PV pts=1 bad=") + (ok ? "0" : "1") + (ok ? "" : (" base=" + hex32(v0) + " pushed=" + hex32(v1))));
+            }
+            else if (c == "archive") {
+                // archive N (h name doc nv (varhandle name)*)*   strings as hex ("-" = empty)
+                auto unhex = [](const std::string& h) {
+                    std::string o; if (h == "-") return o;
+                    for (size_t i = 0; i + 1 < h.size(); i += 2) o.push_back((char)strtoul(h.substr(i, 2).c_str(), nullptr, 16));
+                    return o; };
+                auto tohex = [](const std::string& b) {
+                    if (b.empty()) return std::string("-");
+                    std::string o; char buf[4];
+                    for (unsigned char ch : b) { snprintf(buf, sizeof buf, "%02x", ch); o += buf; }
+                    return o; };
+                Archive a;
+                size_t k = 2; int n = std::stoi(t[1]);
+                std::vector<std::map<std::string, Tree::Id>> named(n);
+                std::vector<Tree> roots;
+                for (int i = 0; i < n; ++i) {
+                    Tree tr = H(t[k]); std::string name = unhex(t[k + 1]), doc = unhex(t[k + 2]);
+                    int nv = std::stoi(t[k + 3]); k += 4;
+                    std::map<Tree::Id, std::string> vars;
+                    std::string order;
+                    for (int j = 0; j < nv; ++j) { Tree v = H(t[k]); vars[v.id()] = unhex(t[k + 1]); named[i][unhex(t[k + 1])] = v.id(); k += 2; }
+                    // the serialiser walks the map in key (pointer) order: report it for the model
+                    for (auto& kv : vars) { order += " " + std::to_string(cx.var_index(static_cast<const TreeData*>(kv.first))); }
+                    out("VO" + order);
+                    a.addShape(tr, name, doc, vars);
+                    roots.push_back(tr);
+                }
+                std::stringstream ss;
+                a.serialize(ss);
+                std::string bytes = ss.str();
+                out("B " + tohex(bytes));
+                std::stringstream in(bytes);
+                Archive b = Archive::deserialize(in);
+                out("N " + std::to_string(b.shapes.size()));
+                int i = 0;
+                for (auto& sh : b.shapes) {
+                    std::vector<std::string> vn;
+                    std::map<Tree::Id, float> vals_b;
+                    std::map<std::string, float> byname;
+                    float nextv = 0.5f;
+                    for (auto& kv : sh.vars) { vn.push_back(tohex(kv.second)); byname[kv.second] = nextv; vals_b[kv.first] = nextv; nextv += 0.75f; }
+                    std::sort(vn.begin(), vn.end());
+                    std::string vs; for (auto& x : vn) vs += (vs.empty() ? "" : ",") + x;
+                    // label reloaded variables by their names for the dump
+                    Ctx cy; cy.vars.clear();
+                    std::string d;
+                    {
+                        // vars in dump: index of the name in sorted order, -1 if unnamed
+                        std::vector<std::pair<std::string, Tree::Id>> nm;
+                        for (auto& kv : sh.vars) nm.push_back({kv.second, kv.first});
+                        std::sort(nm.begin(), nm.end());
+                        for (auto& x : nm) cy.vars.push_back(Tree(static_cast<const TreeData*>(x.second)));
+                        d = dump_dag(cy, sh.tree);
+                    }
+                    out("S name=" + tohex(sh.name) + " doc=" + tohex(sh.doc) + " vars=" + (vs.empty() ? "-" : vs) + " dump=" + d);
+                    // semantic comparison with the original shape (same index)
+                    if (i < (int)roots.size()) {
+                        std::map<Tree::Id, float> vals_a;
+                        for (auto& kv : named[i]) if (byname.count(kv.first)) vals_a[kv.second] = byname[kv.first];
+                        int bad = 0, pts = 0; std::string info;
+                        try {
+                            ArrayEvaluator ea(roots[i], vals_a), eb(sh.tree, vals_b);
+                            for (int q = 0; q < 6; ++q) {
+                                Eigen::Vector3f p(0.37f * q - 1.0f, 0.81f - 0.29f * q, 0.13f * q * q - 0.5f);
+                                float va = ea.value(p), vb = eb.value(p);
+                                // min/max treat a NaN operand differently by position and the optimiser
+                                // orders operands by address: points with a NaN are outside the domain
+                                if (std::isnan(va) || std::isnan(vb)) continue;
+                                ++pts;
+                                bool same = va == vb ||
+                                            std::fabs(va - vb) <= 1e-4f * (1 + std::fabs(va));
+                                if (!same) { if (!bad) info = " p#" + std::to_string(q) + " a=" + hex32(va) + " b=" + hex32(vb); ++bad; }
+                            }
+                        } catch (std::exception& e) { bad = 1; info = std::string(" exc=") + e.what(); }
+                        out("E pts=" + std::to_string(pts) + " bad=" + std::to_string(bad) + info);
+                    }
+                    ++i;
+                }
             }
             else if (c == "ivcheck") {
                 // ivcheck h lx ly lz ux uy uz exact(0/1) : C02's statement on one expression and box
